@@ -118,6 +118,11 @@ def install_structural(ex):
     o[r"bitstr::.*::bytestr$|Bitstr::bytestr$"] = optional("bytestr", byte_multiple, "std::borrow::Cow<[u8]>")
     o[r"bitstr::.*::to_bytes$|Bitstr::to_bytes$"] = optional("to_bytes", byte_multiple, "std::vec::Vec<u8>")
     o[r"bitstr::.*::slice$|Bitstr::slice$"] = optional("slice", aligned, "&[u8]")
+
+    def padded(ex_, st, fr, callee, args):
+        a = val_of(ex_, st, args[0])
+        return Opaque("std::vec::Vec<u8>", z3.Const("to_bytes_with_padding(%s)" % ident(ex_, st, a), opaque_sort("std::vec::Vec<u8>")))
+    o[r"bitstr::.*::to_bytes_with_padding$|Bitstr::to_bytes_with_padding$"] = padded
     o[r"bitstr::.*::from_int$|Bitstr::from_int$"] = from_int
     o[r"bitstr::.*::from_f32$|Bitstr::from_f32$"] = from_float(32)
     o[r"bitstr::.*::from_f64$|Bitstr::from_f64$"] = from_float(64)
